@@ -60,6 +60,15 @@ func (sfc *StructFieldsCopy) createFieldSnippet(f *types.Var) snippet.Snippet {
 
 	switch x := fieldType.(type) {
 	case *types.Named:
+		if _, ok := x.Underlying().(*types.Interface); ok || x.Obj().Pkg() == nil {
+			// interface values (error included) are shared, they have no fields to copy
+			return snippet.T(`
+out.@fieldName = in.@fieldName
+`, snippet.Args{
+				"fieldName": snippet.ID(f.Name()),
+			})
+		}
+
 		var fc *FieldContext
 
 		if sfc.FieldContext != nil {
